@@ -85,6 +85,11 @@ func driveScalar(c *ctx) {
 	for i := 0; i < c.scale(300, 5000); i++ {
 		bin(randBig(r, bigN), randBig(r, bigN))
 	}
+	// pairs whose INTERNAL limbs differ by a pattern that a careless accumulation of limb differences cancels
+	for _, tw := range limbTwins(r, bigN) {
+		bin(tw[0], tw[1])
+		bin(tw[1], tw[0])
+	}
 	cwin := new(big.Int).Sub(big2_256, bigN)
 	for i := 0; i < c.scale(200, 3000); i++ {
 		d1 := add(randBig(r, pow2(uint(1+r.Intn(200)))), 1)
